@@ -293,7 +293,7 @@ def graph6_constants(facts):
                 a = edge_atom(d, i, "otherwise")
                 if a:
                     atoms.append(a[0])
-        eqn = any(isinstance(a, tuple) and a[0] == "bin" and a[1] == "Eq" and any(isinstance(s, tuple) and s[0] == "const" and "::N" in str(s[1]) for s in walk_expr(a)) for a in atoms)
+        eqn = any(isinstance(a, tuple) and a[0] == "bin" and a[1] in ("Eq", "Ne") and any(isinstance(s, tuple) and s[0] == "const" and "::N" in str(s[1]) for s in walk_expr(a)) for a in atoms)
         # ranges 1..=3 and 4..
         ok_ranges = set(cs) >= {1, 3, 4}
         if eqn and ok_ranges and (long_bits is None or long_bits == 6 * 3):
